@@ -572,11 +572,25 @@ class DoctestParser:
                 else:
                     yield line
 
+        plain_source_block = '\n'.join(exec_source_lines)
         exec_source_lines = list(_hack_comment_statements(exec_source_lines))
 
         source_block = '\n'.join(exec_source_lines)
         try:
-            pt = static.six_axt_parse(source_block)
+            try:
+                pt = static.six_axt_parse(source_block)
+            except SyntaxError:
+                # A comment line inside a compound statement (between a
+                # decorator and its def, between an if suite and its else) is
+                # not a statement of its own: parse the code as written.
+                if plain_source_block == source_block:
+                    raise
+                try:
+                    pt = static.six_axt_parse(plain_source_block)
+                except SyntaxError:
+                    pt = None
+                if pt is None:
+                    raise
         except SyntaxError as syn_ex:
             # Assign missing information to the syntax error.
             if syn_ex.text is None:
